@@ -1672,6 +1672,13 @@ impl<'a> ProdWorld<'a> {
         if !self.poisoned {
             self.roundtrip(ex);
         }
+        if !self.poisoned {
+            // the stream / future goes first: whatever its op still owns is closed now, and that must not
+            // be a descriptor of a handle that is still alive
+            self.pending = Pending_::None;
+            settle(self.rt, Duration::from_micros(100), || false);
+            self.check_owners("end: future/stream dropped", ex);
+        }
         if self.poisoned {
             // two owners of one number (or an owner of a closed one): dropping them would close a number
             // twice (std aborts the process on that). Forget the owners, close each number once by hand.
